@@ -65,6 +65,7 @@ type Tx struct {
 	writable               bool
 	pendingWrites          []*Entry
 	ReservedStoreTxIDIdxes map[int64]*BPTree
+	merging                bool // the transaction rewrites records on behalf of Merge
 }
 
 // Begin opens a new transaction.
@@ -165,7 +166,7 @@ func (tx *Tx) Commit() error {
 
 	lastIndex := writesLen - 1
 	countFlag := CountFlagEnabled
-	if tx.db.isMerging {
+	if tx.merging {
 		countFlag = CountFlagDisabled
 	}
 
